@@ -4,6 +4,9 @@ import SmVerif.Model.Lookup
 import SmVerif.Model.V3Spec
 import SmVerif.Model.Paths
 import SmVerif.Model.DrvRam
+import SmVerif.Model.DrvDoc
+import SmVerif.Model.DrvIndex
+import SmVerif.Model.DrvConc
 import SmVerif.Model.DrvHermes
 import SmVerif.Model.DrvDetect
 import SmVerif.Model.DrvHeader
@@ -188,6 +191,9 @@ def handle (toks : List String) : String :=
     else if op.startsWith "hdr." then DrvHeader.handleHdr toks
     else if op.startsWith "det." then DrvDetect.handleDet toks
     else if op.startsWith "hermes." then DrvHermes.handleHermes toks
+    else if op.startsWith "conc." then DrvConc.handleConc toks
+    else if op.startsWith "idx." then DrvIndex.handleIdx toks
+    else if op.startsWith "doc." then DrvDoc.handleDoc toks
     else if op.startsWith "bytes." then "*\tsafe\t1"
     else handleMisc toks
 
